@@ -236,7 +236,11 @@ func C03(r *vf.Run) {
 						for i := range buf {
 							buf[i] = 0xCC
 						}
-						e := asm.NewEmitter(buf[:prefix+free:prefix+free], listing)
+						target := buf[:prefix+free:prefix+free]
+						if rep%2 == 1 {
+							target = buf[:prefix+free] // spare capacity behind the window
+						}
+						e := asm.NewEmitter(target, listing)
 						if g.Bool() {
 							e.SetBase(uint32(g.Intn(256))<<16 | uint32(g.Intn(0x8000)))
 						}
